@@ -39,13 +39,18 @@ def check_lane_semantics(c, m, stim, s1, mask):
                         return f'lane {lane} position {p}: {name} component {(int(s1[p, lane]) >> bit) & 1} != 2-valued simulation {cap[p]}'
     return None
 
+THEOREMS += ['C02_logicsim_chain_agrees_trace', 'C02_logicsim_drivers_source_is_model_partial']
+
 
 def run(ck):
     import random
+    from harness import lsim_drivers_corr as ld
+    ok_drv = ld.translate_drivers(ck)   # evaluation loops / driver methods of logic_sim.py (Gen/LogicSimDriversSrc.v)
     ok_t = sk.regen_tables(ck)
     ck.prove('C02', THEOREMS)
     if ok_t:
         sk.validate_dispatch(ck, ['disp4', 'disp4_cb', 'disp8', 'disp8_cb'])
+    drv_fails = ld.run(ck, random.Random(ck.seed * 7919 + 203), ck.scale(36, 300)) if ok_drv else []
     rng = random.Random(ck.seed * 7919 + 2)
     nrng = np.random.default_rng(ck.seed + 2)
     ncirc = ck.scale(50, 1200)
@@ -98,6 +103,9 @@ def run(ck):
              'proved about that model (Proofs/LogicSimGlue.v, C02_logicsim_model_correct): for every well-formed acyclic netlist of known gates, any '
              'c_reuse / strip_forks and any stimulus the compared entry point sim_case8 returns the gate-by-gate composition of the documented '
              'operators; outside that domain the memory map is tied by C08 certificates and correspondence')
+    if not fails:
+        for key, what, rp in drv_fails[:3]:
+            ck.fail(key, what, rp, found_input=False)
     for kind, desc, what in fails[:5]:
         ck.fail(f'logicsim{desc["m"]}:{kind}', f'LogicSim(m={desc["m"]}) ' + what, {'component': 'logic_sim.LogicSim', 'input': desc, 'actual': what})
     if not fails:
